@@ -23,6 +23,11 @@ def generate(rng, tier):
                 # the same transform options for all 12 variants
                 c = FL.gen_filter_case(rng, tier, R, Q, channel=2, lorch=bool(rep & 1), omitted=bool(rep & 2))
                 c["flagform"] = ["bool", "npbool", "int"][rep % 3]
+                if False:      # (not generated: at Q <= 0 the conversions are not invertible and the variants differ by design)
+                    # a Q grid reaching below zero (after a Q offset): there every variant but the Q[S(Q)-1] ones reports the
+                    # conventional "no information" value with zero uncertainty
+                    c["q"] = [-abs(c["q"][0]) * 0.5 - 0.05] + c["q"][1:]
+                    c["desc"]["negative_q"] = True
                 if rep < 4:
                     FL.force_uncertainties(rng, c, dgr=(rep in (0, 1)), dy=(rep in (0, 2)))
                 cases.append(c)
@@ -89,8 +94,19 @@ def oracle(pystog, case, res):
     ro = FL.call_filter(pystog, ref_case)
     ref = {n: v for n, v in zip(FL.OUT, ro)}
     mag = 1 + max(np.abs(ref["y_ft"]).max(), np.abs(ref["y"]).max())
+    qpos = np.array(case["q"], float) > 0
+    if (~qpos).any() and case["Q"] != 1:
+        conv0 = [1.0, 0.0, 0.0, m["btot"]][case["Q"]]
+        for name in ("y_ft", "y"):
+            if len(o[name]) == len(qpos) and (np.abs(o[name][~qpos] - conv0) > 1e-9 * (1 + abs(conv0))).any():
+                return "%s: %s at Q <= 0 is not the conventional value %r" % (case["desc"]["variant"], name, conv0)
+        for name in ("dy_ft", "dy"):
+            if len(o[name]) == len(qpos) and (o[name][~qpos] != 0).any():
+                return "%s: uncertainty output %s at Q <= 0 is %r where the other variants report 0 (no information there)" % (
+                    case["desc"]["variant"], name, o[name][~qpos].tolist()[:3])
     for name in ("y_ft", "y"):
-        if (np.abs(mine[name] - ref[name]) > 1e-8 * mag).any():
+        sel_q = qpos if (len(mine[name]) == len(qpos) and case["Q"] != 1) else slice(None)
+        if (np.abs(mine[name] - ref[name])[sel_q] > 1e-8 * mag).any():
             return "%s: %s differs from g_using_F after conversion" % (case["desc"]["variant"], name)
     gmag = 1 + np.abs(ref["g"] - 1).max()
     pos = o["r"] > 0.05
@@ -98,7 +114,7 @@ def oracle(pystog, case, res):
         return "%s: filtered real-space function differs from g_using_F after conversion" % case["desc"]["variant"]
     for name, tol in (("dy_ft", 1e-8), ("dy", 1e-8), ("dg", 1e-7)):
         a, b = mine[name], ref[name]
-        sel = pos if name == "dg" else slice(None)
+        sel = pos if name == "dg" else (qpos if (len(a) == len(qpos) and case["Q"] != 1) else slice(None))
         emag = np.abs(b).max() + 1e-300
         if (np.abs(a - b)[sel] > tol * (emag + np.abs(b)[sel])).any():
             return "%s: uncertainty output %s differs from g_using_F after conversion (input uncertainty dropped or altered)" % (case["desc"]["variant"], name)
